@@ -910,7 +910,6 @@ def shrink(hist, failing, budget=60):
         for i in range(len(hist["ops"]) - 1, -1, -1):
             cand = copy.deepcopy(hist)
             del cand["ops"][i]
-            cand.pop("failover_from", None) if False else None
             budget -= 1
             try:
                 if failing(cand):
